@@ -124,10 +124,25 @@ pub struct Ctx {
     pub viol: Vec<String>,
     pub hid: String,
     pub step: usize,
+    pub dump_every: usize,
+    pub viol_count: usize,
+    pub per_prop: HashMap<String, usize>,
 }
 impl Ctx {
     pub fn viol(&mut self, prop: &str, what: &str) {
-        self.viol.push(format!("VIOL {} {} {} {}", prop, self.hid, self.step, what));
+        // bounded: long messages are truncated and at most 40 lines are kept per history
+        // (per property: a flood of one kind must not hide another)
+        let n = self.per_prop.entry(prop.to_string()).or_insert(0);
+        if *n >= 25 {
+            return;
+        }
+        *n += 1;
+        self.viol_count += 1;
+        let mut w: String = what.chars().take(500).collect();
+        if what.len() > w.len() {
+            w.push_str(" ...");
+        }
+        self.viol.push(format!("VIOL {} {} {} {}", prop, self.hid, self.step, w));
     }
 }
 
@@ -1031,11 +1046,11 @@ fn do_tree_op(st: &mut TreeSt, toks: &[&str], c: &mut Ctx) -> String {
         }
         "TI" => {
             let (z, id, v) = (p(toks[1]), p(toks[2]) as u64, p(toks[3]));
-            let before = if st.damaged { let mut cc = Ctx { out: String::new(), viol: vec![], hid: String::new(), step: 0 }; dump_s3(t, &mut cc); Some((c14_oracle(t, c), cc.out)) } else { None };
+            let before = if st.damaged { let mut cc = Ctx { out: String::new(), viol: vec![], hid: String::new(), step: 0, dump_every: 1, viol_count: 0, per_prop: HashMap::new() }; dump_s3(t, &mut cc); Some((c14_oracle(t, c), cc.out)) } else { None };
             let r = t.try_insert(VKey::new(z, id), VVal::new(v));
             if let Some(((_, must), dump)) = &before {
                 if *must {
-                    let mut cc = Ctx { out: String::new(), viol: vec![], hid: String::new(), step: 0 };
+                    let mut cc = Ctx { out: String::new(), viol: vec![], hid: String::new(), step: 0, dump_every: 1, viol_count: 0, per_prop: HashMap::new() };
                     dump_s3(t, &mut cc);
                     if !matches!(r, Err(bplustree::BPlusTreeError::DataIntegrityError(_))) {
                         c.viol("C14", "try_insert does not refuse a damaged map with a data-integrity error");
@@ -1070,11 +1085,11 @@ fn do_tree_op(st: &mut TreeSt, toks: &[&str], c: &mut Ctx) -> String {
         "TR" => {
             let z = p(toks[1]);
             let k = VKey::new(z, 0);
-            let before = if st.damaged { let mut cc = Ctx { out: String::new(), viol: vec![], hid: String::new(), step: 0 }; dump_s3(t, &mut cc); Some((c14_oracle(t, c), cc.out)) } else { None };
+            let before = if st.damaged { let mut cc = Ctx { out: String::new(), viol: vec![], hid: String::new(), step: 0, dump_every: 1, viol_count: 0, per_prop: HashMap::new() }; dump_s3(t, &mut cc); Some((c14_oracle(t, c), cc.out)) } else { None };
             let r = t.try_remove(&k);
             if let Some(((_, must), dump)) = &before {
                 if *must {
-                    let mut cc = Ctx { out: String::new(), viol: vec![], hid: String::new(), step: 0 };
+                    let mut cc = Ctx { out: String::new(), viol: vec![], hid: String::new(), step: 0, dump_every: 1, viol_count: 0, per_prop: HashMap::new() };
                     dump_s3(t, &mut cc);
                     if !matches!(r, Err(bplustree::BPlusTreeError::DataIntegrityError(_))) {
                         c.viol("C14", "try_remove does not refuse a damaged map with a data-integrity error");
@@ -1310,7 +1325,7 @@ fn main() {
     // silence the default panic message (panics are caught and reported as outputs)
     std::panic::set_hook(Box::new(|_| {}));
     let mut st = St::Dead;
-    let mut c = Ctx { out: String::new(), viol: vec![], hid: String::new(), step: 0 };
+    let mut c = Ctx { out: String::new(), viol: vec![], hid: String::new(), step: 0, dump_every: 1, viol_count: 0, per_prop: HashMap::new() };
     let end_history = |st: &mut St, c: &mut Ctx| {
         // C11: dropping the map releases every key and value exactly once
         let old = std::mem::replace(st, St::Dead);
@@ -1338,10 +1353,16 @@ fn main() {
             end_history(&mut st, &mut c);
             c.hid = toks[1].to_string();
             c.step = 0;
+            c.viol_count = 0;
+            c.per_prop.clear();
             let cap: usize = toks
                 .iter()
                 .find_map(|t| t.strip_prefix("cap=").map(|x| x.parse().unwrap()))
                 .unwrap_or(0);
+            c.dump_every = toks
+                .iter()
+                .find_map(|t| t.strip_prefix("dump=").map(|x| x.parse().unwrap()))
+                .unwrap_or(1);
             let _ = writeln!(c.out, "H {} {} cap={}", toks[1], toks[2], cap);
             match toks[2] {
                 "rust" => {
@@ -1381,8 +1402,21 @@ fn main() {
                         Ok(s) => {
                             let _ = writeln!(c.out, "O {}", s);
                             let r2 = catch_unwind(AssertUnwindSafe(|| {
-                                dump_s3(&ts.t, &mut c);
-                                dump_s2(&ts.t, &mut c);
+                                if c.step % c.dump_every == 0 {
+                                    dump_s3(&ts.t, &mut c);
+                                    dump_s2(&ts.t, &mut c);
+                                }
+                                if !ts.damaged && c.dump_every > 1 && c.step % c.dump_every == 0 {
+                                    // deep histories: periodic full lookup check (every key routes to its entry)
+                                    for (z, (_, v)) in ts.m.iter() {
+                                        let k = VKey::new(*z, 0);
+                                        let got = ts.t.get(&k).map(|x| x.v);
+                                        if got != Some(*v) {
+                                            c.viol("C01", &format!("get({}) = {:?} but the reference map holds {}", z, got, v));
+                                            break;
+                                        }
+                                    }
+                                }
                                 if !ts.damaged {
                                     check_structure(&ts.t, &mut c, &mut ts.hwm);
                                     if matches!(toks[0], "I" | "R" | "M" | "X" | "RI" | "TI" | "TR" | "BI") {
